@@ -150,6 +150,12 @@ def gen_spec(rng, fx, k, counters):
             o["legend"] = False
         if rng.random() < 0.3:
             o["colormap"] = rng.choice(("ggplot", "ggplot", "bmh", "default"))
+        if rng.random() < 0.3:
+            o["labels"] = ["first", "second", "third"][:n]
+        if rng.random() < 0.2:
+            o["title"] = "T"
+        if n > 1 and rng.random() < 0.2:
+            o["plot_only"] = [n - 1]
         s.update(ds=[rng.randrange(nd) for _ in range(n)], as_list=n > 1 or rng.random() < 0.5, opts=o,
                  rep={"ds": [rng.choice(("f64", "f64", "i64", "f32")) for _ in range(n)]})
         if rng.random() < 0.5:
